@@ -103,9 +103,15 @@ def main():
     for a, b in uncovered:
         out_unc[a].add(b)
     walks = []
+    # states in reverse breadth-first order: the list is consumed from its end, i.e. nearest states first
+    order = [x for x in reversed(list(parent.keys()))]
     while uncovered:
         # start: the uncovered edge whose source is nearest to init
-        a0 = min(out_unc.keys(), key=lambda a: len(prefix(a)) if out_unc[a] else 1 << 30)
+        while order and not out_unc.get(order[-1]):
+            order.pop()
+        if not order:
+            break
+        a0 = order[-1]
         path = prefix(a0)                     # nodes after init
         for i in range(len(path)):            # edges on the prefix get covered as a side effect
             e = ((init if i == 0 else path[i - 1]), path[i])
@@ -116,30 +122,15 @@ def main():
             if out_unc.get(cur):
                 nxt = next(iter(out_unc[cur]))
             else:
-                # nearest state with an uncovered out-edge, within the remaining budget
-                seen = {cur: None}; dq = collections.deque([cur]); target = None
-                while dq and target is None:
-                    x = dq.popleft()
-                    d = 0; y = x
-                    while seen[y] is not None:
-                        y = seen[y]; d += 1
-                    if d >= min(6, maxlen - len(path) - 1):
-                        continue
-                    for y in succ.get(x, []):
-                        if y in nodes and y not in seen:
-                            seen[y] = x
-                            if out_unc.get(y):
-                                target = y; break
-                            dq.append(y)
-                if target is None:
+                # no uncovered edge leaves this state: try one hop through any successor that has one, else end the walk
+                nxt = None
+                for y in succ.get(cur, []):
+                    if y in nodes and out_unc.get(y):
+                        nxt = y
+                        break
+                if nxt is None:
                     break
-                hop = []
-                y = target
-                while seen[y] is not None:
-                    hop.append(y); y = seen[y]
-                for y in reversed(hop):
-                    path.append(y)
-                cur = target
+                path.append(nxt); cur = nxt
                 continue
             uncovered.discard((cur, nxt)); out_unc[cur].discard(nxt)
             path.append(nxt); cur = nxt
